@@ -229,7 +229,41 @@ pub fn run_property(p: &dyn Property, cfg: &RunCfg) -> i32 {
   let mut aggs: Vec<Agg> = vec![];
   let mut crashes: Vec<(u64, String)> = vec![];
   for (k, out, mut child) in children {
-    let status = child.wait().expect("wait for worker");
+    // Watchdog: a worker whose current run does not change for a long time
+    // is stuck in a *real* wait (a lock the seam does not wrap, held by a
+    // parked simulated thread): that run is reported as a hang.
+    let marker = format!("{}.current", out);
+    let mut last_seen = std::fs::read_to_string(&marker).unwrap_or_default();
+    let mut last_change = Instant::now();
+    let mut hung = false;
+    let status = loop {
+      match child.try_wait().expect("wait for worker") {
+        Some(st) => break st,
+        None => {
+          std::thread::sleep(std::time::Duration::from_millis(100));
+          let now = std::fs::read_to_string(&marker).unwrap_or_default();
+          if now != last_seen {
+            last_seen = now;
+            last_change = Instant::now();
+          } else if last_change.elapsed().as_secs() > 180 {
+            let _ = child.kill();
+            hung = true;
+          }
+        }
+      }
+    };
+    if hung {
+      match last_seen.trim().parse::<u64>() {
+        Ok(i) => {
+          crashes.push((i, format!("worker {} made no progress for 180 s while executing run {} (a real, unsimulated wait: hang)", k, i)));
+          continue;
+        }
+        Err(_) => {
+          eprintln!("HARNESS-ERROR: worker {} hung and left no marker", k);
+          std::process::exit(2);
+        }
+      }
+    }
     match std::fs::read(&out).ok().and_then(|b| serde_json::from_slice::<Agg>(&b).ok()) {
       Some(a) if status.success() => aggs.push(a),
       _ => {
